@@ -119,6 +119,8 @@ def run_acq(case):
     try:
         with np.errstate(all='ignore'):
             with time_limit(600, 'C11:acquire-hangs', 'acquire'):
+                if case['cls'] == 'ExpIntVar-importance' and t > 0:
+                    acq.acquire(n, t=0)        # acquisition indices start at 0 (the importance points are drawn there)
                 x = acq.acquire(n, t=t)
     except ValueError as e:
         if rmv and n > avail:
@@ -335,6 +337,7 @@ def run_grad(case):
                 g = np.reshape(acq.evaluate_gradient(x[None, :], t), -1)
             f0 = f(x)
         gref = np.zeros(d)
+        fd_err = np.zeros(d)
         for j in range(d):
             h = 1e-4 * w[j]
             e = np.zeros(d)
@@ -342,12 +345,22 @@ def run_grad(case):
             d1 = (f(x + e) - f(x - e)) / (2 * h)
             d2 = (f(x + e / 2) - f(x - e / 2)) / h
             gref[j] = (4 * d2 - d1) / 3
+            fd_err[j] = abs(d2 - d1)          # how much the finite difference itself moves between the two step sizes
         if not (np.isfinite(f0) and np.all(np.isfinite(gref)) and np.all(np.isfinite(g))):
             continue
+        if case['cls'] == 'MaxVar':
+            # MaxVar = prior^2 * (skew-normal cdf - normal cdf^2): where that difference is below ~1e-8 it is dominated by the
+            # absolute accuracy of scipy's skew-normal cdf, so `evaluate` itself (and its finite differences) is not a reference
+            with np.errstate(all='ignore'):
+                pr = float(np.reshape(prior.pdf(x[None, :] if d > 1 else x), -1)[0])
+            if pr <= 0 or f0 / pr ** 2 < 1e-8:
+                continue
         scale = np.abs(gref).max()
         if scale < 1e-6 * max(abs(f0), 1e-12) / w.min():
             continue                          # |gradient| negligible: finite differences dominated by round-off
-        if not np.allclose(g, gref, rtol=1e-3, atol=1e-3 * scale):
+        if np.any(fd_err > 0.05 * scale):
+            continue                          # the finite-difference reference is not trustworthy here (strong curvature)
+        if not np.all(np.abs(g - gref) <= 1e-3 * np.abs(gref) + 1e-3 * scale + 10 * fd_err):
             raise Violation('C11:acquisition-gradient', '%s.evaluate_gradient(%r, t=%d) = %r, derivative of evaluate = %r; %s' % (case['cls'], x.tolist(), t, g.tolist(), gref.tolist(), ctx))
         checked += 1
     return CaseResult(['cls=' + case['cls'], 'd=%d' % d], True if checked else None)
